@@ -217,10 +217,37 @@ void cmdXPath(const Msg& req, Msg& resp)
         }
     const std::string only = req.gets("only", "gbnscl");
 
+    // prior=<expr>*: expressions that the same execution context and object factory evaluate, convert in every way and release
+    // BEFORE each evaluation of expr (inside a transformation one context serves thousands of evaluations and recycles its objects)
+    std::vector<XPath*> priors;
+    struct PriorsGuard { std::vector<XPath*>& v; ~PriorsGuard() { for (auto p : v) delete p; } } priorsGuard{priors};
+    for (auto p : req.all("prior"))
+    {
+        XPath* px = new XPath(XalanMemMgrs::getDefaultXercesMemMgr());
+        ErrInfo pe;
+        if (guarded([&]() { s.proc.initXPath(*px, s.cctx, dom(*p), s.resolver); }, pe)) priors.push_back(px);
+        else delete px;
+    }
+    resp.addi("priors", (long)priors.size());
+
     for (size_t oi = 0; oi < only.size(); ++oi)
     {
         const char which = only[oi];
         VarCtx& ctx = s.newCtx();
+        for (auto px : priors)
+        {
+            ErrInfo pe;
+            guarded([&]() {
+                XObjectPtr v = haveList ? px->execute(ctxNode, s.resolver, s.ctxList, ctx) : px->execute(ctxNode, s.resolver, ctx);
+                if (!v.null())
+                {
+                    (void)v->num(ctx);
+                    (void)v->str(ctx);
+                    (void)v->boolean(ctx);
+                    (void)v->stringLength(ctx);
+                }
+            }, pe);
+        }
         ErrInfo e2;
         switch (which)
         {
